@@ -13,14 +13,17 @@ An *engine* is a module-like object with
 One unit's result depends only on (params, seed); units are dealt to workers in chunks and
 merged by index, so outcome and evidence are the same at any worker count.
 """
+import atexit
 import collections
 import faulthandler
 import hashlib
 import json
 import multiprocessing
 import os
+import shutil
 import subprocess
 import sys
+import tempfile
 import time
 import traceback
 from concurrent.futures import ProcessPoolExecutor, as_completed
@@ -29,6 +32,38 @@ from . import stream as S
 
 VERIF_DIR = os.path.dirname(os.path.dirname(os.path.abspath(__file__)))
 EXIT_OK, EXIT_VIOLATION, EXIT_HARNESS, EXIT_TIMEOUT = 0, 1, 2, 3
+
+
+def _scratch_base():
+    for cand in ("/dev/shm", "/var/tmp", tempfile.gettempdir()):
+        if os.path.isdir(cand) and os.access(cand, os.W_OK):
+            return cand
+    return tempfile.gettempdir()
+
+
+_SCRATCH = None
+
+
+def scratch_root():
+    """Scratch root of this batch: $VERIF_SCRATCH if a parent process set it (pool workers, replay children),
+    else a new directory owned - and removed at exit - by this process.  Stale roots of dead processes are swept."""
+    global _SCRATCH
+    inherited = os.environ.get("VERIF_SCRATCH")
+    if inherited and os.path.isdir(inherited):
+        return inherited
+    if _SCRATCH is None or not _SCRATCH.endswith(f"-{os.getpid()}"):
+        base = _scratch_base()
+        for name in os.listdir(base):
+            if name.startswith("twv-"):
+                pid = name.split("-")[-1]
+                if pid.isdigit() and not os.path.exists(f"/proc/{pid}"):
+                    shutil.rmtree(os.path.join(base, name), ignore_errors=True)
+        _SCRATCH = os.path.join(base, f"twv-{os.getpid()}")
+        shutil.rmtree(_SCRATCH, ignore_errors=True)
+        os.makedirs(_SCRATCH, exist_ok=True)
+        atexit.register(shutil.rmtree, _SCRATCH, True)
+        os.environ["VERIF_SCRATCH"] = _SCRATCH
+    return _SCRATCH
 
 
 class HarnessError(Exception):
@@ -201,6 +236,7 @@ def _confirm_fresh(path):
 
 def run_check(engine_name, tier, verif_seed, workers=None, evidence=True, quiet=False):
     t0 = time.monotonic()
+    scratch_root()          # created (and exported) before the pool forks; removed at exit of this process
     eng = get_engine(engine_name)
     prop = eng.PROPERTY
     workers = workers or int(os.environ.get("VERIF_WORKERS", "0")) or min(16, os.cpu_count() or 1)
